@@ -36,10 +36,15 @@ CONFIGS = {
                       incs=["platform/gcc_no_tls", "platform/c++11.futex", "platform/c++11", "platform/gcc", "platform/posix", "platform/x86_64"],
                       srcs=COMMON + ["platform/posix/src/per_thread_waiter.c", "platform/c++11/src/yield.cc", "platform/c++11/src/time_rep_timespec.cc",
                                      "platform/c++11/src/nsync_panic.cc", "platform/linux/src/nsync_semaphore_futex.c"], hdefs=[]),
+    # the generic C++11 build (what CMake selects on macOS / Windows / unknown systems): binary semaphore on std::mutex + std::condition_variable
+    "cpp-mutexsem": dict(lang="c++", defs=["-DNSYNC_USE_CPP11_TIMEPOINT", "-DNSYNC_ATOMIC_CPP11", "-std=c++11"],
+                         incs=["platform/gcc_no_tls", "platform/c++11", "platform/gcc", "platform/posix", "platform/x86_64"],
+                         srcs=COMMON + ["platform/posix/src/per_thread_waiter.c", "platform/c++11/src/yield.cc", "platform/c++11/src/time_rep_timespec.cc",
+                                        "platform/c++11/src/nsync_panic.cc", "platform/c++11/src/nsync_semaphore_mutex.cc"], hdefs=["-DNSIM_SEM_BINARY=1"]),
 }
 
 PURE_EXTERNALS = {"_GLOBAL_OFFSET_TABLE_", "__errno_location", "__dso_handle", "__stack_chk_fail", "strlen", "strcmp", "strncmp", "memcmp", "memmove",
-                  "strchr", "strrchr", "strcpy", "strncpy", "memchr", "_ZdlPv", "_ZdlPvm", "_Znwm"}
+                  "strchr", "strrchr", "strcpy", "strncpy", "memchr", "_ZdlPv", "_ZdlPvm", "_Znwm", "_ZSt20__throw_system_errori"}
 
 def sh(cmd):
     r = subprocess.run(cmd, stdout=subprocess.PIPE, stderr=subprocess.STDOUT, text=True)
